@@ -244,3 +244,79 @@ func FactsC04Layout(f *hc.Facts) {
 		f.Missing("frameKeyIdLen", "EncryptedMessage.Encode/DecodeWithoutCopy: unexpected framing")
 	}
 }
+
+// FactsC04Msg regenerates the payload-encoder selection of mtproto.Conn.newEncryptedMessage (the
+// compression-threshold path) and the framing of proto.GZIP.
+func FactsC04Msg(f *hc.Facts) {
+	f.Const("gzipTypeID", "proto", "GZIPTypeID")
+	fd := f.FuncDecl("mtproto", "Conn.newEncryptedMessage")
+	var outer *ast.IfStmt
+	if fd != nil && fd.Body != nil {
+		for _, st := range fd.Body.List {
+			if s, ok := st.(*ast.IfStmt); ok && outer == nil && strings.Contains(f.Src(s.Cond), "compressThreshold") {
+				outer = s
+			}
+		}
+	}
+	tr := func(src string) (string, bool) {
+		t := strings.NewReplacer("c.compressThreshold", "t", "payloadBuf.Len()", "len", "<=", "≤", ">=", "≥").Replace(src)
+		for _, ch := range t {
+			if !strings.ContainsRune(" <>≤≥0123456789tlen=", ch) {
+				return "", false
+			}
+		}
+		return t, true
+	}
+	ok := false
+	if outer != nil {
+		if els, isBlk := outer.Else.(*ast.BlockStmt); isBlk {
+			var inner *ast.IfStmt
+			for _, st := range els.List {
+				if s, isIf := st.(*ast.IfStmt); isIf && strings.Contains(f.Src(s.Cond), "compressThreshold") {
+					inner = s
+				}
+			}
+			if inner != nil {
+				a, o1 := tr(f.Src(outer.Cond))
+				b, o2 := tr(f.Src(inner.Cond))
+				thenSrc, gzSrc := squash(f.Src(outer.Body)), squash(f.Src(inner.Body))
+				rawSrc := ""
+				if inner.Else != nil {
+					rawSrc = squash(f.Src(inner.Else))
+				}
+				shape := strings.Contains(thenSrc, "Message: payload,") && !strings.Contains(thenSrc, "GZIP") &&
+					strings.Contains(gzSrc, "Message: proto.GZIP{Data: payloadBuf.Raw()},") &&
+					strings.Contains(rawSrc, "MessageDataLen: int32(payloadBuf.Len()),") &&
+					strings.Contains(rawSrc, "MessageDataWithPadding: payloadBuf.Buf,") &&
+					strings.Contains(f.Src(els), "payload.Encode(payloadBuf)") &&
+					strings.Contains(f.Src(fd.Body), "c.cipher.Encrypt(s.Key, d, b)")
+				if o1 && o2 && shape {
+					f.Raw("def threshDisabled (t : Int) : Bool := decide (" + a + ") -- " + f.Src(outer.Cond) + ": Message = payload")
+					f.Raw("def threshCompress (len t : Int) : Bool := decide (" + b + ") -- " + f.Src(inner.Cond) + ": Message = proto.GZIP{payload}, else raw bytes with MessageDataLen")
+					ok = true
+				}
+			}
+		}
+	}
+	if !ok {
+		f.Missing("threshDisabled", "mtproto.Conn.newEncryptedMessage: unexpected shape")
+	}
+	// Options.setDefaults: CompressThreshold 0 -> default
+	osrc := f.FuncSrc("mtproto", "Options.setDefaults")
+	def := 0
+	if i := strings.Index(osrc, "if opt.CompressThreshold == 0 {\n\t\topt.CompressThreshold = "); i >= 0 {
+		fmt.Sscanf(osrc[i+len("if opt.CompressThreshold == 0 {\n\t\topt.CompressThreshold = "):], "%d", &def)
+	}
+	if def > 0 {
+		f.Nat("defaultThreshold", def, "mtproto.Options.setDefaults: CompressThreshold == 0 means this value")
+	} else {
+		f.Missing("defaultThreshold", "mtproto.Options.setDefaults: CompressThreshold default")
+	}
+	enc := callSeq(f, "proto", "GZIP.Encode", "b")
+	dec := callSeq(f, "proto", "GZIP.Decode", "b")
+	f.Bool("gzipFraming", strings.Join(enc, ";") == "PutID GZIPTypeID;PutBytes Bytes()" && strings.Join(dec, ";") == "ConsumeID GZIPTypeID;Bytes",
+		"proto.GZIP: PutID(GZIPTypeID) PutBytes(compressed) / ConsumeID(GZIPTypeID) Bytes(): "+strings.Join(enc, ";")+" / "+strings.Join(dec, ";"))
+}
+
+// squash collapses runs of blanks and tabs (struct-literal alignment) into one space.
+func squash(s string) string { return strings.Join(strings.Fields(s), " ") }
